@@ -125,13 +125,7 @@ func checkGuards(r *engine.Run, rule string, entries []*ssa.Function, owners map
 					if held[gd.lock] == engine.ModeR && need == engine.ModeW {
 						why = "under the read lock of " + gd.lock + " only"
 					}
-					path := ""
-					for _, e := range entries {
-						if p := g.PathTo(e, f); p != nil {
-							path = strings.Join(p, " -> ")
-							break
-						}
-					}
+					path := strings.Join(w.Witness(f, gd.lock, need), " -> ")
 					note(construct, pos, false, fmt.Sprintf("%s %s (%s); held %s; reached via %s", mode, why, a.What, held.String(), path))
 				}
 			}
